@@ -12,12 +12,13 @@ import numpy as np
 from .. import pure, refs
 from ..hyp import st
 from ..pure import Part, ProbeResult
-from ..world import World, gen_config, gen_init
+from ..world import World, gen_config, gen_init, gen_op, swarm
 
 ID = "C15"
 RULE = (
     "Hypothesis @given: a generated solution (random forest with divisions, skip edges, several "
-    "lineages, non-contiguous ids; 2D/3D; with/without segmentation) and a non-empty random node "
+    "lineages, non-contiguous ids; 2D/3D; with/without segmentation), optionally after an editing "
+    "session of 3-12 random user actions, and a non-empty random node "
     "subset (biased to leaves below divisions, roots, nodes of several lineages). CSV "
     "(export_to_csv, plain and display names, with the relabelled tif) and GEFF (export_to_geff, "
     "with segmentation) are written with node_ids=subset and read back with pandas / tifffile / "
@@ -29,15 +30,31 @@ RULE = (
     "seg, ndim, |subset|, |closure|, |nodes|, #lineages hit)."
 )
 ASSUMPTIONS = ["subsets are non-empty and contain only existing nodes"]
-REQUIRED_CLASSES = {t: ["c15:closure_strictly_between", "c15:several_lineages", "part:geff", "part:csv"]
+REQUIRED_CLASSES = {t: ["c15:closure_strictly_between", "c15:several_lineages", "part:geff", "part:csv", "c15:after_session"]
                     for t in ("quick", "thorough")}
 
 
-def _make(rnd, fmt):
+def _make(rnd, fmt, session=False):
     cfg = gen_config(rnd, allow_optional=False)
     init = gen_init(rnd, cfg, max_nodes=10, need_edges=True)
+    ops = []
     ids = [n["id"] for n in init["nodes"]]
     parents = {n["id"]: n["parent"] for n in init["nodes"]}
+    if session:
+        # an editing session first: the export then sees node ids / attributes as edits leave them
+        import copy
+
+        with warnings.catch_warnings():
+            warnings.simplefilter("ignore")
+            world = World(copy.deepcopy(init))
+            weights = swarm(rnd, "general")
+            for _ in range(rnd.randint(3, 12)):
+                world.apply(gen_op(world, rnd, weights))
+        ops = list(world.trace)
+        ids = world.nodes()
+        parents = {n: None for n in ids}
+        for u, v in world.edges():
+            parents[v] = u
     has_child = {p for p in parents.values() if p is not None}
     leaves = [i for i in ids if i not in has_child]
     subset = []
@@ -46,12 +63,12 @@ def _make(rnd, fmt):
         for _ in range(k):
             pool = leaves if (leaves and rnd.random() < 0.6) else ids
             subset.append(pool[rnd.randint(0, len(pool) - 1)])
-    return {"init": init, "subset": sorted(set(subset)), "fmt": fmt,
+    return {"init": init, "ops": ops, "subset": sorted(set(subset)), "fmt": fmt,
             "display": rnd.random() < 0.3, "zarr": 3 if rnd.random() < 0.3 else 2}
 
 
-def inputs(fmt):
-    return st.randoms(use_true_random=False).map(lambda rnd: _make(rnd, fmt))
+def inputs(fmt, session=False):
+    return st.randoms(use_true_random=False).map(lambda rnd: _make(rnd, fmt, session))
 
 
 def _classify(res, inp, world, closure):
@@ -74,6 +91,13 @@ def probe(inp) -> ProbeResult:
     with warnings.catch_warnings():
         warnings.simplefilter("ignore")
         world = World(inp["init"])
+        for op in inp.get("ops", []):
+            world.apply(dict(op))
+    if inp.get("ops"):
+        res.tags.append("c15:after_session")
+    if not set(inp["subset"]) <= set(world.nodes()):
+        res.discarded = "subset_not_in_graph"
+        return res
     tr = world.tracks
     edges = world.edges()
     closure = refs.ancestors_closure(edges, inp["subset"])
@@ -161,6 +185,8 @@ def _probe_geff(res, inp, world, tr, closure, induced, tmp):
 PARTS = [
     Part("csv", inputs("csv"), probe, quick=800, thorough=8000),
     Part("geff", inputs("geff"), probe, quick=500, thorough=6000),
+    Part("csv_session", inputs("csv", session=True), probe, quick=300, thorough=3000),
+    Part("geff_session", inputs("geff", session=True), probe, quick=200, thorough=2000),
 ]
 
 
